@@ -1019,3 +1019,34 @@ def expand_partials(func):
         visit_Lambda = lambda self, node: node
     T().visit(new)
     return _finish(new, func)
+
+
+def ifexp_to_if(func):
+    """copy of `func` in which ``x = a if c else b`` and
+    ``return a if c else b`` are written as if / else statements"""
+    if not any(isinstance(n, ast.IfExp) for n in walk(func)):
+        return func
+    new = _copy.deepcopy(func)
+
+    def split(st):
+        if isinstance(st, ast.Assign) and isinstance(st.value, ast.IfExp):
+            mk = lambda v: ast.copy_location(ast.Assign(
+                targets=_copy.deepcopy(st.targets), value=v), st)
+        elif isinstance(st, ast.Return) and isinstance(st.value, ast.IfExp):
+            mk = lambda v: ast.copy_location(ast.Return(value=v), st)
+        else:
+            return [st]
+        v = st.value
+        return [ast.copy_location(ast.If(
+            test=v.test, body=split(mk(v.body)),
+            orelse=split(mk(v.orelse))), st)]
+
+    def process(stmts):
+        out = []
+        for st in stmts:
+            for fld, blk in _blocks(st):
+                blk[:] = process(blk)
+            out.extend(split(st))
+        return out
+    new.body = process(new.body)
+    return _finish(new, func)
